@@ -44,7 +44,9 @@ def runLine (line : String) : String :=
       let obs := match r.2.1 with
         | .outOfFuel => s!"FUEL trace={tr}"
         | o => s!"trace={tr} status={r.1.status} err={if o == .syntaxError then 1 else 0} echo={encBytes r.1.echo}"
-      obs ++ "\t" ++ check shared script chunks r
+      let prefixes := (List.range units.length).filterMap fun k =>
+        if k == 0 then none else some (units.take k).flatten
+      obs ++ "\t" ++ check shared script data prefixes chunks r
     | _, _ => "bad-case\t-"
   | _ => "bad-case\t-"
 
